@@ -293,6 +293,11 @@ func runFaultScenario(seed int64, be, mode string, perTarget, maxK, fuEvery int)
 		}
 		followup()
 	}
+	if !b.dead {
+		// after all those failed calls the handle still closes (a lock or a transaction leaked on an
+		// error path would make Close wait forever)
+		note(x.Step(E{"op": "Close"}, false))
+	}
 	return lines, stats
 }
 
